@@ -164,6 +164,29 @@ def appendLoopK (l : List Ent) : Nat → List (Path × Path) × List Path → Pa
         if p' = [] then ((current, p') :: memo, current :: resolved)
         else appendLoopK l fuel (memo, resolved) current p'
 
+/-- variant of `append` that treats the components contributed by a LINK TARGET literally (isolates F32: `append` hands every
+component to `readSymlink` with `allowWildcard = true`, so a name with `*`, `?` or `[` that is reached through a link target is
+matched as a pattern against its directory and the link behind it is not followed). `lit` = number of leading components of
+`p` that came from a link target; `keyed` = memo keyed by (link, remainder) as in `appendLoopK`. -/
+def appendLoopG (l : List Ent) (keyed : Bool) : Nat → List (Path × Path) × List Path → Path → Path → Nat → List (Path × Path) × List Path
+  | 0, acc, _, _, _ => acc
+  | fuel+1, (memo, resolved), current0, p, lit =>
+    let (first, rest) := splitFirst p
+    let current := joinB [current0, first]
+    let targets := readSymlink l current (lit = 0)
+    let p' := rest
+    let key := if keyed then (current, p') else (current, [])
+    if (p' = [] ∨ targets.isSome) ∧ memo.contains key then (memo, resolved)
+    else match targets with
+      | some ts =>
+        ts.foldl (fun acc t =>
+          let np := joinB [[dot], joinB [t, p']]
+          let tl := ((comps (joinB [[dot], t])).filter (fun c => c ≠ [] ∧ c ≠ [dot])).length
+          appendLoopG l keyed fuel acc [dot] np tl) (key :: memo, current :: resolved)
+      | none =>
+        if p' = [] then (key :: memo, current :: resolved)
+        else appendLoopG l keyed fuel (memo, resolved) current p' (lit - 1)
+
 def lexLtBytes (a b : Path) : Bool := strLt a b
 
 def insertSortedB (x : Path) : List Path → List Path
@@ -201,6 +224,19 @@ def followLinksSeparately (fixed : Bool) (l : List Ent) (paths : List Path) (fue
 def followLinksKeyed (fixed : Bool) (l : List Ent) (paths : List Path) (fuel : Nat) : Option (List Path) :=
   let r := paths.foldl (fun acc p => appendLoopK l fuel acc [dot] (normReq Fix.f18 p)) ([], [])
   dedupePaths fixed (sortBytes r.2)
+
+/-- variants with literal link-target components (F32), memo shared / fresh per request / keyed -/
+def followLinksLit (fixed : Bool) (l : List Ent) (paths : List Path) (fuel : Nat) (keyed sep : Bool) : Option (List Path) :=
+  let resolved :=
+    if sep then paths.flatMap fun p => (appendLoopG l keyed fuel ([], []) [dot] (normReq Fix.f18 p) 0).2
+    else (paths.foldl (fun acc p => appendLoopG l keyed fuel acc [dot] (normReq Fix.f18 p) 0) ([], [])).2
+  dedupePaths fixed (sortBytes resolved)
+
+/-- is there a symlink whose resolution text (its directory joined with its target) has a component with a metacharacter? -/
+def metaLink (l : List Ent) : Bool :=
+  l.any fun e => match symTarget e.path e with
+    | some ts => ts.any fun t => (comps t).any containsWildcards
+    | none => false
 
 /-- has the (cleaned) request a wildcard in a component that is not the last one? -/
 def middleWildcard (p : Path) : Bool :=
